@@ -10,7 +10,7 @@ ID = "C15"
 ANCHORS = 'utils.one_hot_encode,utils._fast_one_hot_encode,utils.characters,utils.reverse_complement,utils.chunk,utils.unchunk'.split(",")
 MIN_INSTANCES = 12
 # rule families whose findings in this module are derived by an engine (not by comparing spellings): exempt from the rewrite gate
-SEMANTIC_RULES = {"R-SLICE0", "R-LEN"}
+SEMANTIC_RULES = {"R-SLICE0", "R-LEN", "STATE"}
 EXPLANATION = (
     "R-TABLE (one_hot_encode): the 256-entry byte table is filled with the 'illegal' sentinel by default, alphabet bytes with "
     "their index, ignore bytes with the 'ignore' sentinel, and the numba reader handles exactly {ignore: skip, illegal: raise, "
@@ -32,6 +32,8 @@ def run(repo, tier):
     out += characters_rules(repo)
     out += rc_rules(repo)
     out += chunk_rules(repo)
+    from ..rules import module_state_rule
+    out += module_state_rule(repo, U)
     return out
 
 
